@@ -191,7 +191,10 @@ class Online(object):
             if r.world.net.stubborn and r.attempt_pending() and rng.random() < 0.7:
                 self.emit("close")  # the case the switch exists for: close() while the attempt is pending
         elif k == "sync":
-            self.emit("sync %s" % rng.choice([m for m in ("none", "ok", "fail") if m != r.sync]))
+            # a synchronously failing endpoint with a zero retry delay is a busy loop (the timer re-arms itself for
+            # the current instant for ever, in Twisted's Clock as in a reactor): not generated
+            modes = ("none", "ok") if any(Fraction(p) <= 0 for p in self.header[2]) else ("none", "ok", "fail")
+            self.emit("sync %s" % rng.choice([m for m in modes if m != r.sync] or ["none"]))
         elif k == "wfail":
             self.emit("wfail %d" % (0 if r.wfail else 1))
             if r.wfail:
